@@ -155,6 +155,9 @@ def extract():
                 bad_keys.append(str(k))
                 continue
             out.append({"key": k, "num": ident[0], "sub": ident[1], "items": conv_items(d)})
+        # a dict is looked up by key: its insertion order is not behaviour, so the model gets a canonical order
+        # (a reordering of the table is then no change of the model at all)
+        out.sort(key=lambda e: (e["num"], -1 if e["sub"] is None else e["sub"], str(e["key"])))
         return out
 
     std = conv_table(RTCM_PAYLOADS_GET)
@@ -172,22 +175,32 @@ def extract():
             has = False
         msgids.append({"key": k, "num": ident[0], "sub": ident[1], "msm": bool(has)})
 
+    msgids.sort(key=lambda e: (e["num"], -1 if e["sub"] is None else e["sub"], str(e["key"])))
+
+    def by_key(pairs):
+        try:
+            return sorted(pairs, key=lambda kv: kv[0])
+        except TypeError:          # keys of mixed types: keep the insertion order
+            return list(pairs)
+
     prnsig = []
     for k, (prnmap, sigmap) in PRNSIGMAP.items():
         if not (isinstance(k, str) and re.fullmatch(r"[0-9]{3}", k)):
             bad_keys.append("PRNSIGMAP:" + str(k))
             continue
         prnsig.append({"key": int(k),
-                       "prn": [[i, v] for i, v in prnmap.items()],
-                       "sig": [[i, v[0], v[1]] for i, v in sigmap.items()]})
+                       "prn": [[i, v] for i, v in by_key(prnmap.items())],
+                       "sig": [[i, v[0], v[1]] for i, v in by_key(sigmap.items())]})
+    prnsig.sort(key=lambda e: e["key"])
     gnssmap = []
     for k, (name, epoch) in core.GNSSMAP.items():
         if not (isinstance(k, str) and re.fullmatch(r"[0-9]{3}", k)) or epoch not in fid:
             bad_keys.append("GNSSMAP:" + str(k))
             continue
         gnssmap.append({"key": int(k), "name": name, "epoch": fid[epoch]})
+    gnssmap.sort(key=lambda e: e["key"])
     coeffs = []
-    for _, (field, _nm) in core.COEFFS.items():
+    for _, (field, _nm) in core.COEFFS.items():          # iterated in order by parse_4076_201: order is behaviour
         if field in fid:
             coeffs.append(fid[field])
         else:
